@@ -296,6 +296,47 @@ pub fn literals() -> Vec<Lit> {
             out.push(dur(vec!["T".into(), "#".into(), v.to_string(), u.to_string()], ns, format!("duration/large/{}{}", mname, u)));
         }
     }
+    // the length of the fraction is a dimension of its own: for every unit, fractions of 1 to 18 digits whose
+    // only non-zero digit is the last one (1 or 5), runs of nines, and fractions followed by zeros. The value is
+    // computed as an exact rational; what is no whole number of nanoseconds cannot be represented and is to
+    // be rejected (never cut down), what is one is to be read exactly
+    for (u, scale, _) in units.iter() {
+        let mut fracs: Vec<String> = vec![];
+        for k in 0..18usize {
+            for d in ["1", "5"] {
+                fracs.push(format!("{}{}", "0".repeat(k), d));
+            }
+            fracs.push("9".repeat(k + 1));
+            fracs.push(format!("5{}", "0".repeat(k)));
+            fracs.push(format!("25{}", "0".repeat(k)));
+        }
+        for whole in ["0", "1", "59"] {
+            for f in &fracs {
+                let num: i128 = f.parse().unwrap();
+                let den: i128 = 10i128.pow(f.len() as u32);
+                let prod = num * scale;
+                let ns = if prod % den == 0 { Some(whole.parse::<i128>().unwrap() * scale + prod / den) } else { None };
+                let sort = if ns.is_some() { "whole-nanoseconds" } else { "finer-than-a-nanosecond" };
+                let lenclass = if f.len() <= 9 { "<=9" } else if f.len() <= 15 { "10..15" } else { ">15" };
+                for neg in [false, true] {
+                    if neg && whole != "0" {
+                        continue;
+                    }
+                    let mut pieces: Vec<String> = vec!["T".into(), "#".into()];
+                    if neg {
+                        pieces.push("-".into());
+                    }
+                    pieces.push(format!("{}.{}", whole, f));
+                    pieces.push(u.to_string());
+                    let label = format!("duration/fraction-length/{}/digits{}/{}", u, lenclass, sort);
+                    match ns {
+                        Some(v) => out.push(dur(pieces, Some(if neg { -v } else { v }), label)),
+                        None => out.push(Lit { label, type_text: "TIME", pieces, expect: Expect::Reject("finer than a nanosecond"), address: false }),
+                    }
+                }
+            }
+        }
+    }
     // every duration body up to length 5 over the characters a duration is made of, judged by a reference
     // recogniser written from B.1.2.3.1 (what is a duration has its exact value)
     {
